@@ -738,6 +738,12 @@ class ObjectDomain(LazyGenerators, EffectDomain):
         if name in cache.get("<consumers>", ()):
             return [val(("builtin", "<consume>"), st)]
         if expr is None:
+            # NAME = BaseException.__repr__ / object.__str__ ...: the builtin, called with the object as its argument
+            for s_ in tree.body:
+                if isinstance(s_, ast.Assign) and len(s_.targets) == 1 and isinstance(s_.targets[0], ast.Name) and s_.targets[0].id == name and isinstance(s_.value, ast.Attribute) \
+                        and s_.value.attr in ("__repr__", "__str__") and isinstance(s_.value.value, ast.Name) and s_.value.value.id in self.BUILTIN_EXCEPTIONS + ("object",):
+                    return [val(("builtin", "repr" if s_.value.attr == "__repr__" else "str"), st)]
+        if expr is None:
             return None
         from .absint import Frame
         holder = ast.parse("def _module_body():\n    pass").body[0]
@@ -1521,6 +1527,11 @@ class ObjectDomain(LazyGenerators, EffectDomain):
             got = self._dict_read(st.get(fn[1], None), fn[2], pos, st)
             return got if got is not None else [val(TOP, st)]
         if tag == "strmethod" and pos and not kw:
+            if fn[1] == "join" and len(pos) == 2 and (self.pullable(pos[1]) or (isinstance(pos[1], tuple) and pos[1][:1] == ("lazymap",))):
+                out = []
+                for g in interp._forced([val(pos[1], st)], fr):
+                    out.extend([g] if g.kind == "exc" else self.apply(interp, fn, [pos[0], g.value], [], g.state, fr))
+                return out
             pys = [self._py(unbox_deep(v, st)) for v in pos]
             if all(ok for ok, _ in pys) and isinstance(pys[0][1], (str, bytes)):
                 try:
@@ -2413,6 +2424,7 @@ class ObjectDomain(LazyGenerators, EffectDomain):
                 if out is not None:
                     return out
             if isinstance(f_, (ast.Call, ast.Subscript, ast.BoolOp, ast.IfExp)) or (isinstance(f_, ast.Attribute) and not attr_chain(f_) and not (dotted(f_) or "").startswith("super()")
+                                                             and not isinstance(f_.value, (ast.Constant, ast.JoinedStr))   # ("text".method(...) is modelled where it is called)
                                                              and not any(isinstance(n_, ast.Call) for n_ in ast.walk(f_.value))):
                 vals = interp.eval(f_, st, fr)
                 if self.strict_calls and isinstance(f_, (ast.Call, ast.Subscript)) and any(r.kind == "val" and r.value == TOP for r in vals):
